@@ -472,8 +472,9 @@ def inline_helpers(module, cls, fn, depth=2, _counter=[0], keep=frozenset()):
                 and f.attr.startswith("_") and not f.attr.startswith("__") \
                 and f.attr in cls.methods and cls.methods[f.attr] is not None:
             return cls.methods[f.attr], True
-        if isinstance(f, ast.Name) and f.id.startswith("_") \
-                and f.id in module.functions:
+        if isinstance(f, ast.Name) and f.id in module.functions \
+                and (f.id.startswith("_")
+                     or f.id in getattr(module, "local_closures", ())):
             return module.functions[f.id], False
         return None, False
 
@@ -854,4 +855,79 @@ def normalize_guards(fn):
         return out
     fn.body = block(fn.body)
     ast.fix_missing_locations(fn)
+    return fn
+
+
+def loops_to_comprehensions(fn):
+    """copy of ``fn`` in which a collection built by a plain loop
+
+        X = set() / [] / {} / list() / dict()
+        for T in ITER:
+            X.add(E) | X.append(E) | X[K] = V
+
+    (no other use of X in between) is written as the comprehension it is.
+    Rules that recognise the comprehension form then see both spellings."""
+    fn = copy.deepcopy(fn)
+
+    def empty_kind(v):
+        if isinstance(v, ast.List) and not v.elts:
+            return "list"
+        if isinstance(v, ast.Dict) and not v.keys:
+            return "dict"
+        if isinstance(v, ast.Call) and isinstance(v.func, ast.Name) \
+                and not v.args and not v.keywords \
+                and v.func.id in ("set", "list", "dict"):
+            return v.func.id
+        return None
+
+    def block(stmts):
+        out = list(stmts)
+        i = 0
+        while i < len(out):
+            st = out[i]
+            for field in ("body", "orelse", "finalbody"):
+                sub = getattr(st, field, None)
+                if isinstance(sub, list) and sub and isinstance(sub[0], ast.stmt):
+                    setattr(st, field, block(sub))
+            for h in getattr(st, "handlers", []) or []:
+                h.body = block(h.body)
+            if isinstance(st, ast.Assign) and len(st.targets) == 1 \
+                    and isinstance(st.targets[0], ast.Name) \
+                    and empty_kind(st.value):
+                x, kind = st.targets[0].id, empty_kind(st.value)
+                # the next statement that mentions X must be the loop
+                j = i + 1
+                while j < len(out) and x not in {
+                        n.id for n in ast.walk(out[j])
+                        if isinstance(n, ast.Name)}:
+                    j += 1
+                if j < len(out) and isinstance(out[j], ast.For) \
+                        and not out[j].orelse and len(out[j].body) == 1:
+                    lp, b = out[j], out[j].body[0]
+                    comp = None
+                    gen = [ast.comprehension(lp.target, lp.iter, [], 0)]
+                    if isinstance(b, ast.Expr) and isinstance(b.value, ast.Call) \
+                            and isinstance(b.value.func, ast.Attribute) \
+                            and isinstance(b.value.func.value, ast.Name) \
+                            and b.value.func.value.id == x \
+                            and len(b.value.args) == 1 and not b.value.keywords:
+                        if b.value.func.attr == "add" and kind == "set":
+                            comp = ast.SetComp(b.value.args[0], gen)
+                        elif b.value.func.attr == "append" and kind == "list":
+                            comp = ast.ListComp(b.value.args[0], gen)
+                    elif isinstance(b, ast.Assign) and len(b.targets) == 1 \
+                            and isinstance(b.targets[0], ast.Subscript) \
+                            and isinstance(b.targets[0].value, ast.Name) \
+                            and b.targets[0].value.id == x and kind == "dict":
+                        comp = ast.DictComp(b.targets[0].slice, b.value, gen)
+                    if comp is not None:
+                        new = ast.Assign([ast.Name(x, ast.Store())], comp)
+                        ast.copy_location(new, st)
+                        ast.fix_missing_locations(new)
+                        out[i] = new
+                        del out[j]
+                        continue
+            i += 1
+        return out
+    fn.body = block(fn.body)
     return fn
